@@ -82,6 +82,33 @@ def run_families(pool, fn, families, per_task=4):
     return out
 
 
+def toggle(pos):
+    """`alts` entry: the other truth value (keeps the type: bool stays bool, 0/1 stays int)"""
+    def f(rng, base):
+        v = base[pos]
+        return (not v) if isinstance(v, bool) else (0 if v else 1)
+    return f
+
+
+def bump_elem(pos, lo=1, hi=None, steps=(1, -1, 2, 7, 16), only=None):
+    """`alts` entry for a position that holds a tuple of integers (a shape, a block, a kernel): ONE element moves by a step"""
+    def f(rng, base):
+        t = base[pos]
+        if t is None:
+            raise KeyError(pos)
+        idx = list(only) if only is not None else list(range(len(t)))
+        rng.shuffle(idx)
+        for i in idx:
+            for st in rng.sample(list(steps), len(steps)):
+                v = t[i] + st
+                if v >= lo and (hi is None or v <= (hi[i] if isinstance(hi, (list, tuple)) else hi)):
+                    n = list(t)
+                    n[i] = v
+                    return tuple(n) if isinstance(t, tuple) else n
+        raise KeyError(pos)
+    return f
+
+
 def _run_task(args):
     fn, fams = args
     return [[fn(c) for c in fam] for fam in fams]
